@@ -1066,6 +1066,9 @@ def _lockstep_op(run, ms, op, run_out=None):
                     raise e
                 if exp["open"] or ms.taint or ms.stale:
                     return None, None, problems
+                if isinstance(e, ValueError) and where.endswith("collections.py:remove"):
+                    problems.append(("known:f12", KNOWN_QUIRKS["f12"], "%s raised %r" % (k, e)))
+                    return None, None, problems
                 problems.append(("crash", "%s crashed inside the library: %s in %s" % (k, type(e).__name__, where), repr(e)[:300]))
                 return None, None, problems
             if ms.taint:
@@ -1107,6 +1110,8 @@ def _lockstep_op(run, ms, op, run_out=None):
                 # a load-order dependent defect was possible in this flush; the library may carry leftovers of it (e.g. a
                 # cancelled delete) into the next flush of the transaction: later differences are not attributed
                 post.taint.add(tag_ + "?")
+        if got != want and exp["open"]:
+            return None, None, problems
         if got != want and _f13_match(w, ms, got, want):
             problems.append(("known:f13", KNOWN_QUIRKS["f13"], diff_rows(got, want)))
             return None, None, problems
@@ -1170,6 +1175,9 @@ def _lockstep_op(run, ms, op, run_out=None):
             if kq:
                 problems.append(("known:" + kq, KNOWN_QUIRKS[kq], "autoflush in %s raised %r" % (_fmt_op(op), e)))
                 return None, None, problems
+        if isinstance(e, ValueError) and (_sa_frame(e) or "").endswith("collections.py:remove") and run.nflush == nfl and k not in ("remove",):
+            problems.append(("known:f12", KNOWN_QUIRKS["f12"], "%s raised %r" % (_fmt_op(op), e)))
+            return None, None, problems
         if not isinstance(e, SA_ERRORS) and not isinstance(e, (ValueError,)):
             raise e
         problems.append(("op-raised", "%s raised %s" % (_fmt_op(op), type(e).__name__), repr(e)[:500]))
@@ -1269,6 +1277,7 @@ def _f5_match(w, got, want):
 
 
 KNOWN_QUIRKS = {
+    "f12": "ValueError 'list.remove(x): x not in list' escapes from flush: a removal queued for an unloaded collection (object that was only attached through the backref while transient, then moved on) is applied when the flush loads the collection",
     "f11": "self-referential relationship: a flush whose old and new parent links together form a loop raises CircularDependencyError (owned by C31)",
     "f13": "row switch: when an object is deleted and a new object with the same primary key is added in one flush, the row is UPDATEd with only the attributes set on the new object; every other column (e.g. the foreign key) keeps the deleted object's value",
     "f5": "one-to-one (uselist=False): when a child takes over a parent through child.parent = p, the displaced child's own many-to-one attribute is not cleared; if the parent's scalar has no net change in that flush the displaced row keeps its foreign key (two rows for one parent)",
